@@ -1162,7 +1162,7 @@ theorem setValueAt_names (L : List Str) (w : World) (top : Str) (p : KeyPath) (v
     · rfl
   · exact this
 
-theorem resolveAt_names (L : List Str) (orc : Oracle) (dflt : Str) (fuel : Nat) (locale : Str) (p : KeyPath)
+theorem resolveAt_names (L : List Str) (orc : Oracle) (dflt : Foreign.Fallbacks) (fuel : Nat) (locale : Str) (p : KeyPath)
     (w w' : World) (b : Bool) (h : Foreign.resolveAt orc dflt fuel locale p w = .ok (w', b))
     (hok : NamesOK L w.nss) : NamesOK L w'.nss := by
   unfold Foreign.resolveAt at h
@@ -1176,7 +1176,7 @@ theorem resolveAt_names (L : List Str) (orc : Oracle) (dflt : Str) (fuel : Nat) 
     · simp only [Res.ok.injEq, Prod.mk.injEq] at h
       rw [← h.1]; exact setValueAt_names L w _ _ _ hok
 
-theorem resolveAll_names (L : List Str) (orc : Oracle) (dflt : Str) (fuel : Nat) :
+theorem resolveAll_names (L : List Str) (orc : Oracle) (dflt : Foreign.Fallbacks) (fuel : Nat) :
     ∀ (paths : List (Str × KeyPath)) (w w' : World), Foreign.resolveAll orc dflt fuel paths w = .ok w' →
       NamesOK L w.nss → NamesOK L w'.nss
   | [], w, w', h, hok => by simp [Foreign.resolveAll] at h; rw [← h]; exact hok
